@@ -164,21 +164,21 @@ static void check_case(vg::Src& s, vh::Ctx& c)
                 mask_set = true;
                 live.graph->set_mask(mask);
                 c.desc += " set_mask(" + vg::describe_mask(mask) + ")";
-                // base levels must stay unmasked
-                std::vector<size_t> nb;
+                // masked base levels are allowed to stay in the set (they count for nothing); at
+                // least one unmasked base level must remain
+                bool any_unmasked = false;
                 for (auto b : bl)
                     if (!mask[b])
-                        nb.push_back(b);
-                if (nb.size() != bl.size() || nb.empty())
+                        any_unmasked = true;
+                if (!any_unmasked)
                 {
-                    if (nb.empty())
-                        for (size_t i = 0; i < n; ++i)
-                            if (!mask[i])
-                            {
-                                nb.push_back(i);
-                                break;
-                            }
-                    bl = nb;
+                    for (size_t i = 0; i < n; ++i)
+                        if (!mask[i])
+                        {
+                            bl.push_back(i);
+                            break;
+                        }
+                    std::sort(bl.begin(), bl.end());
                     bl_explicit = true;
                     live.graph->set_base_levels(bl);
                     c.desc += " set_base_levels(" + vg::describe_set(bl) + ")";
